@@ -114,13 +114,40 @@ func c19DocF(r *fw.Rand, hostile bool, first int) (string, []string) {
 				g.Sources = append(g.Sources, &gen.Source{Ptr: key, Title: "Pointer equal to a page key"})
 				pick().Extra = append(pick().Extra, &gen.Spec{Tag: "SOUR", Value: "@" + key + "@"})
 				notes = append(notes, "source-pointer-equals-page-key:"+key)
+			case 13: // somebody without a name (what else could their page be named after?) whose pointer is hostile
+				p := pick()
+				switch r.Intn(3) {
+				case 0:
+					p.NoName = true
+				case 1:
+					p.Given, p.Surname = "", ""
+				default:
+					p.Given, p.Surname = "", "?"
+				}
+				p.Names = nil
+				p.Ptr = []string{"../x", "a/b", "..", "places", "index", "../../etc/x", "a\\b", "I 1", "."}[r.Intn(9)]
+				notes = append(notes, "nameless-individual-with-pointer:"+p.Ptr)
+			case 14: // several people without a name, or whose names have no letter or digit
+				for q := r.Range(2, 4); q > 0; q-- {
+					p := pick()
+					p.Names = nil
+					switch r.Intn(3) {
+					case 0:
+						p.NoName = true
+					case 1:
+						p.Given, p.Surname = "", ""
+					default:
+						p.Given, p.Surname = []string{"?", "...", "--"}[r.Intn(3)], []string{"?", "(?)", ""}[r.Intn(3)]
+					}
+				}
+				notes = append(notes, "several-nameless-people")
 			}
 		}
 	}
 	return g.Text(), notes
 }
 
-const c19Features = 13
+const c19Features = 15
 
 func c19N(tier string) int {
 	if tier == "thorough" {
